@@ -202,6 +202,50 @@ Proof.
       * rewrite wuw_put. apply uevents_app_drop. exact Hl'.
 Qed.
 
+Lemma exec_dropvec_f c w st v k r0 :
+  WRep c w st -> ufuse (wuw w) = Some k -> sp_clear_f c st (unext (wuw w)) v k = Some r0 ->
+  res_matches_f c w (exec c (ODropVec v) w)
+    {| s_out := s_out r0; s_pk := s_pk r0; s_ret := s_ret r0; s_evs := s_evs r0; s_st := set_a v None st; s_nx := s_nx r0 |}.
+Proof.
+  intros HW Hfuse Hr.
+  unfold sp_clear_f in Hr.
+  destruct (get_a v st) as [av|] eqn:Hg; [|discriminate]. cbv zeta in Hr.
+  destruct (wrep_get c w st v av HW Hg) as (vv & Hgv & HV).
+  destruct (clear_fused c vv (wuw w) (a_xs av) k (vi_rep _ _ _ HV) Hfuse) as (u' & E & HR' & Hn & Hl).
+  cbn [exec]. rewrite Hgv.
+  assert (Hrep : forall u2 w2, wv w2 = wv w -> WRep c (put_vec v None u2 w2) (set_a v None st)).
+  { intros u2 w2 Hwv n. unfold put_vec, set_a. cbn [wv]. rewrite Hwv, !slot_set_nth.
+    destruct (Nat.eqb n v); [exact I|apply HW]. }
+  destruct (c_dg c && (k <? N.of_nat (length (a_xs av)))) eqn:Ecase; injection Hr as <-.
+  - (* a destructor panics: the storage is still released *)
+    destruct (mem_drop_ok c (with_len 0 vv) (disarm u')) as (v2 & u2 & Ed & _ & Hn2 & Hf2 & He2).
+    assert (Edv : drop_vec c (vv, wuw w) = Panic PUser (v2, {| ulog := ulog u2; unext := unext u2; ufuse := ufuse u' |})).
+    { unfold drop_vec. apply bind_panic. unfold unwinding_st, on_unwind. rewrite E.
+      unfold quiet_st. cbn [fst snd]. rewrite Ed. reflexivity. }
+    rewrite (on_vec_panic v _ w vv PUser _ _ Hgv Edv).
+    cbn [res_matches_f panic_res s_out s_pk s_ret s_st s_evs s_nx].
+    split; [reflexivity|split; [reflexivity|split; [reflexivity|]]]. rewrite N.sub_diag.
+    constructor.
+    + rewrite wuw_put. intros n. rewrite put_put_slot. apply Hrep. reflexivity.
+    + rewrite !wuw_put. cbn [unext]. rewrite Hn2. cbn [disarm unext]. lia.
+    + rewrite !wuw_put. unfold uevents at 1. cbn [ulog]. fold (uevents u2). rewrite He2.
+      unfold uevents. cbn [disarm ulog]. rewrite Hl.
+      apply andb_prop in Ecase. destruct Ecase as [Hdg Hlt]. rewrite Hdg, Hlt.
+      exact (uevents_drops true (firstn (S (N.to_nat k)) (a_xs av)) (ulog (wuw w))).
+  - destruct (mem_drop_ok c (with_len 0 vv) u') as (v2 & u2 & Ed & _ & Hn2 & Hf2 & He2).
+    assert (Edv : drop_vec c (vv, wuw w) = Ok tt (v2, u2)).
+    { unfold drop_vec. rewrite (bind_ok _ _ _ _ _ (unwinding_ok _ _ _ _ _ E)). exact Ed. }
+    rewrite (on_vec_ok v _ w vv tt _ _ Hgv Edv).
+    cbn [res_matches_f ok_res s_out s_pk s_ret s_st s_evs s_nx].
+    split; [reflexivity|split; [reflexivity|split; [reflexivity|]]]. rewrite N.sub_diag.
+    constructor.
+    + rewrite wuw_put. intros n. rewrite put_put_slot. apply Hrep. reflexivity.
+    + rewrite !wuw_put. rewrite Hn2. lia.
+    + rewrite !wuw_put. rewrite He2. unfold uevents. rewrite Hl.
+      destruct (c_dg c) eqn:Hdg; [|reflexivity]. cbn [andb] in Ecase. rewrite Ecase.
+      exact (uevents_drops true (a_xs av) (ulog (wuw w))).
+Qed.
+
 Lemma exec_fused c w st k o r :
   cfg_wf c -> WRep c w st -> ufuse (wuw w) = Some k ->
   spec_step_f c st (unext (wuw w)) (Some k) o = Some r ->
@@ -209,6 +253,9 @@ Lemma exec_fused c w st k o r :
 Proof.
   intros Hwf HW Hfuse Hr. cbn [spec_step_f] in Hr.
   destruct o; try discriminate.
+  - (* ODropVec *)
+    destruct (sp_clear_f c st (unext (wuw w)) v k) as [r0|] eqn:E0; [|discriminate]. injection Hr as <-.
+    exact (exec_dropvec_f c w st v k r0 HW Hfuse E0).
   - (* OPop *) destruct k0; try discriminate.
     exact (exec_take_drop_f c w st a v TPop 0 k r Hwf HW Hfuse (fun _ => eq_refl) Hr).
   - (* ORemove *) destruct k0; try discriminate.
@@ -230,9 +277,12 @@ Proof.
     destruct (c_dg c && (k =? 0) && (s_out r0 =? 0)); [|injection Ht as <-; exact E0].
     destruct (get_a v st); [|discriminate]. injection Ht as <-. cbn; split; lia. }
   destruct o; try discriminate; try (destruct k0; try discriminate; eapply Htd; exact H).
-  unfold sp_clear_f in H.
-  destruct (get_a v st) as [av|]; [|discriminate]. cbv zeta in H.
-  destruct (c_dg c && (k <? N.of_nat (length (a_xs av)))); injection H as <-; cbn; split; lia.
+  - destruct (sp_clear_f c st nx v k) as [r0|] eqn:E0; [|discriminate]. injection H as <-. cbn [s_nx s_out].
+    unfold sp_clear_f in E0. destruct (get_a v st) as [av|]; [|discriminate]. cbv zeta in E0.
+    destruct (c_dg c && (k <? N.of_nat (length (a_xs av)))); injection E0 as <-; cbn; split; lia.
+  - unfold sp_clear_f in H.
+    destruct (get_a v st) as [av|]; [|discriminate]. cbv zeta in H.
+    destruct (c_dg c && (k <? N.of_nat (length (a_xs av)))); injection H as <-; cbn; split; lia.
 Qed.
 
 (** one script step, with or without a fuse *)
@@ -308,7 +358,9 @@ Definition exf_ops : list (option N * op) :=
     (None, OPush Erased 0 SWrap); (None, OPush Erased 0 SWrap); (None, OPush Erased 0 SWrap);
     (Some 1, OClear Erased 0);               (* the second destructor panics: the third element is leaked *)
     (Some 0, OPop Erased 0 KDrop);           (* empty: None *)
-    (None, OPush Erased 0 SWrap); (Some 5, OClear Typed 0); (None, ODropVec 0) ].
+    (None, OPush Erased 0 SWrap); (Some 5, OClear Typed 0); (None, ODropVec 0);
+    (None, ONew 1 BHeap); (None, OPush Erased 1 SWrap); (None, OPush Erased 1 SWrap);
+    (Some 0, ODropVec 1) ].                  (* the vector is dropped, its first destructor panics: the second element is leaked *)
 Example exf_outcomes :
   map (fun r => (s_out r, s_pk r, s_evs r, map (fun o => match o with Some a => a_xs a | None => [] end) (s_st r)))
       (match spec_run_f ex_cfg [] 1 exf_ops with Some rs => rs | None => [] end)
@@ -316,7 +368,8 @@ Example exf_outcomes :
      (2,8,[EDrop 2],[[1]]); (0,0,[EDrop 1],[[]]);
      (0,0,[],[[5]]); (0,0,[],[[5;6]]); (0,0,[],[[5;6;7]]);
      (2,8,[EDrop 5; EDrop 6],[[]]); (1,0,[],[[]]);
-     (0,0,[],[[8]]); (0,0,[EDrop 8],[[]]); (0,0,[],[[]])].
+     (0,0,[],[[8]]); (0,0,[EDrop 8],[[]]); (0,0,[],[[]]);
+     (0,0,[],[[]; []]); (0,0,[],[[]; [9]]); (0,0,[],[[]; [9;10]]); (2,8,[EDrop 9],[[]; []])].
 Proof. vm_compute. reflexivity. Qed.
 Fixpoint Admissible_fb (c : cfg) (w : world) (ops : list (option N * op)) : bool :=
   match ops with
